@@ -5,6 +5,8 @@ import (
 	"math"
 	"runtime"
 	"strconv"
+	"strings"
+	"unicode"
 
 	jmespath "github.com/jmespath/go-jmespath"
 
@@ -526,6 +528,9 @@ func c13(r *mon.Run) {
 	// after the sort, a partially filled buffer) must not reach the next search
 	felTrees, felDocs := c11LateCases()
 	felOrder := []int{0, 2, 0, 3, 0, 1, 0, 4, 0, 6, 0, 7, 5, 0} // document 0 has no failing element
+	// ... three times over and through the documents added later: whatever a compiled expression becomes after its 16th, 32nd
+	// search (a specialised copy, a promoted cache) answers like the fresh one
+	felOrder = append(append(append(felOrder, felOrder...), felOrder...), 8, 0, 9, 13, 0, 18, 22, 0, 27, 3, 2, 1, 4, 0)
 	fel := mon.Workload{Name: "failing-elements-between-successes", N: len(felTrees), Batch: 20,
 		Describe: func(i int) string { return gen.Spell(felTrees[i]) },
 		Do: func(i int, t *mon.Tally) {
@@ -636,7 +641,44 @@ func c13(r *mon.Run) {
 			}
 			t.Nontrivial("twin:" + strconv.Itoa(i))
 		}}
-	r.Exec(hist, ph, pairs, lph, sh, lsh, tsu, rw, fel, twin)
+	// what is an expression does not depend on the entry point: the one-shot Search, Compile, MustCompile and a Parser accept and
+	// reject the same strings - also strings a "simple path" short cut might take for an identifier path (letters and digits of
+	// other scripts, look-alikes of the ASCII ones), searched on a document that HAS a member of that very name
+	var odd []rune
+	for cp := rune(0x80); cp <= 0x1FFFF; cp++ {
+		if cp >= 0xD800 && cp <= 0xDFFF {
+			continue
+		}
+		if unicode.IsDigit(cp) || unicode.IsNumber(cp) || (unicode.IsLetter(cp) && cp%23 == 0) || (unicode.IsMark(cp) && cp%5 == 0) || cp%997 == 0 || (cp >= 0xFF00 && cp <= 0xFFEF) {
+			odd = append(odd, cp)
+		}
+	}
+	oddForms := []string{"v%s", "%sv", "a.b%s", "a%s.b", "v%s1", "_%s"}
+	epw := mon.Workload{Name: "entry-points-agree-on-what-is-an-expression", N: len(odd) * len(oddForms), Batch: 2000,
+		Do: func(i int, t *mon.Tally) {
+			c := string(odd[i/len(oddForms)])
+			expr := strings.Replace(oddForms[i%len(oddForms)], "%s", c, 1)
+			doc := map[string]interface{}{expr: "whole", "v" + c: "m1", c + "v": "m2", "a": map[string]interface{}{"b" + c: "m3", "b": "m4"}, "a" + c: map[string]interface{}{"b": "m5"}, "v" + c + "1": "m6", "_" + c: "m7"}
+			t.Eval()
+			one := apiSearch(expr, doc)
+			_, co := apiCompile(expr)
+			mc := mon.Guard(func() (interface{}, error) { jmespath.MustCompile(expr); return nil, nil })
+			_, perr := jmespath.NewParser().Parse(expr)
+			oneOK, compOK, mustOK, parseOK := !one.Panicked && one.Err == nil, !co.Panicked && co.Err == nil, !mc.Panicked, perr == nil
+			if oneOK != compOK || compOK != mustOK || compOK != parseOK {
+				r.Violate(&mon.Violation{Workload: "entry-points-agree-on-what-is-an-expression", Index: i, API: "Search / Compile / MustCompile / Parser.Parse", Expr: expr, Doc: doc,
+					Expected: "all four entry points accept it or all four reject it", Observed: fmt.Sprintf("one-shot Search: %s; Compile ok=%v; MustCompile ok=%v; Parser.Parse ok=%v", one.String(), compOK, mustOK, parseOK), Class: "entry points disagree on what is an expression"})
+				return
+			}
+			if oneOK {
+				if cs := apiCompiledSearch(expr, doc); canonOut(cs) != canonOut(one) {
+					r.Violate(&mon.Violation{Workload: "entry-points-agree-on-what-is-an-expression", Index: i, API: "Search vs Compile+Search", Expr: expr, Doc: doc, Expected: "the compiled answer " + cs.String(), Observed: "one-shot: " + one.String(), Class: "one-shot and compiled answers differ"})
+					return
+				}
+			}
+			t.NontrivialDistinct(1)
+		}}
+	r.Exec(hist, ph, pairs, lph, sh, lsh, tsu, rw, fel, twin, epw)
 }
 
 // c13Rewritable: see the workload compiled-versus-one-shot-on-rewritable-shapes.
